@@ -19,9 +19,9 @@ func init() {
 			Explanation: "(C18.shared) each Runtime method is implemented by the primitive the interpreter itself uses: Set → setValue (also the target of `=` on identifiers), Resolve/MustResolve → resolve (also identifier " +
 				"evaluation and isset), Context returns the context field, Let stores into the innermost scope's variables map (the map `:=` stores into), SetOrLet chooses between them and must not drop " +
 				"Set's error. (C18.once) YieldBlock executes the block's list exactly once on every normal path, brackets it with a context save/restore when a context is given, and reaches an error " +
-				"panic for an unknown block. (C18.top) LetGlobal walks to the outermost scope that has a variables map; Let/LetGlobal must not store into a nil map (the bottom scope's map is the " +
+				"panic for an unknown block. (C18.top) LetGlobal walks to the outermost scope of the chain; Let/LetGlobal must not store into a nil map (the bottom scope's map is the " +
 				"caller's VarMap, which may be nil). (C18.args) ParseInto iterates 0 ≤ i < NumOfArguments() through Get(i) and fails when fewer pointers than arguments are supplied; " +
-				"RequireNumOfArguments compares NumOfArguments() with both bounds; Get/IsSet/NumOfArguments agree with evaluateArgs on positions (C14.shift, C14.slot, re-checked here).",
+				"RequireNumOfArguments compares NumOfArguments() with both bounds; Get/IsSet/NumOfArguments agree with evaluateArgs on positions (C14.shift, C14.slot, re-checked here). (C18.top, continued) LetGlobal's store happens where the scope's parent is known to be nil, on every path.",
 			NotDecided:  "equivalence of rendered output between API and syntax for all call histories; ParseInto's per-type conversions.",
 			Assumptions: []string{"custom functions call the API from the goroutine executing the template"},
 			Trusted:     commonTrusted,
@@ -42,7 +42,7 @@ func init() {
 			{Name: "a maximum of 0 is treated as no maximum (agent seed C14/5)", File: "func.go", Old: "} else if max >= 0 && num > max {", New: "} else if max > 0 && num > max {", Rule: "C18.args"},
 			{Name: "RequireNumOfArguments ignores the upper bound", File: "func.go", Old: "\t} else if max >= 0 && num > max {\n\t\ta.Panicf(\"unexpected number of arguments in a call to %s\", funcname)\n\t}", New: "\t}", Rule: "C18.args"},
 			{Name: "Let declares in the outermost scope", File: "eval.go", Old: "func (state *Runtime) Let(name string, val interface{}) {\n", New: "func (state *Runtime) Let(name string, val interface{}) {\n\tstate.LetGlobal(name, val)\n\treturn\n", Rule: "C18.shared"},
-			{Name: "LetGlobal stops at the first parent", File: "eval.go", Old: "\tfor sc.parent != nil && sc.parent.variables != nil {\n\t\tsc = sc.parent\n\t}", New: "\tif sc.parent != nil && sc.parent.variables != nil {\n\t\tsc = sc.parent\n\t}", Rule: "C18.top"},
+			{Name: "LetGlobal stops at the first parent", File: "eval.go", Old: "\tfor sc.parent != nil {\n\t\tsc = sc.parent\n\t}", New: "\tif sc.parent != nil {\n\t\tsc = sc.parent\n\t}", Rule: "C18.top"},
 		},
 	})
 }
